@@ -188,3 +188,38 @@ Example ex_rendered :
      UB 68 3; UB 114 3;                                  (* the second value *)
      UB 33 4; UA 4 true].                                (* "!" and the page break of the last run *)
 Proof. vm_compute. reflexivity. Qed.
+
+(* ---------------- the text of the rendered paragraph is the rendered text of the paragraph ---------------- *)
+Lemma utext_app a b : utext (a ++ b) = utext a ++ utext b.
+Proof. unfold utext. apply flat_map_app. Qed.
+
+Lemma utext_map_ub f l : utext (map (fun c => UB c f) l) = l.
+Proof. induction l as [|c r IH]; [reflexivity|]. unfold utext in *. cbn [map flat_map app]. rewrite IH. reflexivity. Qed.
+
+Lemma apply_edits_text : forall us pos es, utext (apply_edits_u us pos es) = apply_edits_t (utext us) pos es.
+Proof.
+  induction us as [|u r IH]; intros pos es; [reflexivity|].
+  destruct u as [b f|f o].
+  - change (utext (UB b f :: r)) with (b :: utext r). cbn [apply_edits_u apply_edits_t].
+    set (sk := (fix skip (es0 : list edit) : list edit :=
+                  match es0 with
+                  | e :: es' => if Nat.leb (e_end e) pos && Nat.ltb (e_start e) (e_end e) then skip es' else es0
+                  | [] => []
+                  end) es).
+    destruct sk as [|e es'].
+    + change (utext (UB b f :: apply_edits_u r (S pos) [])) with (b :: utext (apply_edits_u r (S pos) [])).
+      rewrite IH. reflexivity.
+    + destruct (Nat.leb (e_start e) pos && Nat.ltb pos (e_end e)).
+      * rewrite utext_app, IH. f_equal. destruct (Nat.eqb pos (e_start e)); [apply utext_map_ub | reflexivity].
+      * change (utext (UB b f :: apply_edits_u r (S pos) (e :: es'))) with (b :: utext (apply_edits_u r (S pos) (e :: es'))).
+        rewrite IH. reflexivity.
+  - change (utext (UA f o :: r)) with (utext r). cbn [apply_edits_u].
+    change (utext (UA f o :: apply_edits_u r pos es)) with (utext (apply_edits_u r pos es)). apply IH.
+Qed.
+
+(* formatting, the cutting into runs and the anchors have no influence on the text: it is the text-level rendering of
+   the paragraph's text *)
+Theorem render_units_text holds vars us : utext (render_units holds vars us) = render_text holds vars (utext us).
+Proof.
+  unfold render_units, render_text. rewrite !apply_edits_text. reflexivity.
+Qed.
